@@ -588,7 +588,7 @@ class Range(Terminal):
         gen.writeln("# <Range>")
 
         pattern = rf"[{re.escape(self.start)}-{re.escape(self.stop)}]"
-        re_var = gen.constant("RE", f"re.compile({pattern!r}, re.I)")
+        re_var = gen.constant("RE", f"re.compile({pattern!r})")
 
         gen.writeln(f"if match := {re_var}.match(state.input, state.pos):")
         with gen.block():
